@@ -1,0 +1,299 @@
+//go:build verif
+
+package rfmt
+
+// Contracts for the deductive checks in /verif (comment-only; see /verif/DESIGN.md).
+
+/*@
+import i "github.com/cockroachdb/redact/interfaces"
+import b "github.com/cockroachdb/redact/internal/buffer"
+import m "github.com/cockroachdb/redact/internal/markers"
+
+-- gctx: the classification forced by the outermost enclosing Safe/Unsafe wrapper on the
+-- buffer this printer writes to (0 none, 1 safe, 2 unsafe). Ghost; the code's own record of it is p.override.
+ghostfield buffer.gctx int
+
+-- printer invariant
+pred PI(p *pp) = p.fmt.buf == p.buf && p.override == p.buf.gctx && 0 <= p.buf.gctx && p.buf.gctx <= 2 && (p.buf.gctx == 2 ==> p.buf.mode == UnsafeEscaped) && (p.buf.gctx == 1 ==> p.buf.mode != UnsafeEscaped) && p.buf.mode != SafeRaw
+-- ... with the base mode of structural code: safe text is written in safe mode unless everything is forced unsafe
+pred B(p *pp) = PI(p) && (p.buf.gctx == 0 ==> p.buf.mode == SafeEscaped)
+-- mode, override and context are as on entry
+pred Same(p *pp) = p.buf.mode == old(p.buf.mode) && p.override == old(p.override) && p.buf.gctx == old(p.buf.gctx)
+-- the per-call state that user callbacks and nested printing leave alone
+pred Kept(p *pp) = p.panicking == old(p.panicking) && p.erroring == old(p.erroring) && p.wrapErrs == old(p.wrapErrs) && p.wrappedErr == old(p.wrappedErr) && p.arg == old(p.arg) && p.value == old(p.value) && p.fmt.wid == old(p.fmt.wid) && p.fmt.prec == old(p.fmt.prec) && p.fmt.widPresent == old(p.fmt.widPresent) && p.fmt.precPresent == old(p.fmt.precPresent) && p.fmt.minus == old(p.fmt.minus) && p.fmt.plus == old(p.fmt.plus) && p.fmt.sharp == old(p.fmt.sharp) && p.fmt.space == old(p.fmt.space) && p.fmt.zero == old(p.fmt.zero) && p.fmt.plusV == old(p.fmt.plusV) && p.fmt.sharpV == old(p.fmt.sharpV) && p.reordered == old(p.reordered) && p.goodArgNum == old(p.goodArgNum)
+-- what sync.Pool may hold
+pred PoolInv(p *pp) = len(p.buf.buf) == 0 && p.buf.validUntil == 0 && p.buf.mode == UnsafeEscaped && !p.buf.markerOpen && p.override == 0 && p.buf.gctx == 0 && isnil(p.arg) && isnil(p.wrappedErr)
+pred Pristine(p *pp) = PoolInv(p) && !p.panicking && !p.erroring && !p.wrapErrs && p.fmt.buf == p.buf && !p.fmt.widPresent && !p.fmt.precPresent && !p.fmt.minus && !p.fmt.plus && !p.fmt.sharp && !p.fmt.space && !p.fmt.zero && !p.fmt.plusV && !p.fmt.sharpV
+
+-- a write site: payload class c (0 literal, 1 type name/diagnostic, 2 operand, 3 padding: follows the payload it pads) against mode and context
+-- width and precision stay within what the format parser produces
+pred WP(f *fmt) = 0 <= f.wid && f.wid <= 1073741824 && 0 <= f.prec && f.prec <= 1073741824
+pred S1(bf *buffer, c int) = c == 2 && bf.gctx != 1 ==> bf.mode == UnsafeEscaped
+pred S2(bf *buffer) = bf.gctx == 2 ==> bf.mode == UnsafeEscaped
+pred S3(bf *buffer) = bf.gctx == 1 ==> bf.mode != UnsafeEscaped
+pred S4(bf *buffer, c int) = c <= 1 && bf.gctx != 2 ==> bf.mode != UnsafeEscaped
+-- formatter state that format.go functions leave as they found it
+pred FK(f *fmt) = f.wid == old(f.wid) && f.prec == old(f.prec) && f.widPresent == old(f.widPresent) && f.precPresent == old(f.precPresent) && f.minus == old(f.minus) && f.plus == old(f.plus) && f.sharp == old(f.sharp) && f.space == old(f.space) && f.zero == old(f.zero) && f.plusV == old(f.plusV) && f.sharpV == old(f.sharpV)
+pred BK(bf *buffer) = bf.mode == old(bf.mode) && bf.gctx == old(bf.gctx)
+
+-- ---------------------------------------------------------------- buffer wrappers (print.go)
+
+func (bf *buffer) write(q []byte)
+  requires [C02] S1(bf, $class(q))
+  requires [C06] S2(bf)
+  requires [C05,C06] S3(bf)
+  requires [C05] S4(bf, $class(q))
+  requires bf.mode != SafeRaw
+  ensures BK(bf)
+
+func (bf *buffer) writeString(s string)
+  requires [C02] S1(bf, $class(s))
+  requires [C06] S2(bf)
+  requires [C05,C06] S3(bf)
+  requires [C05] S4(bf, $class(s))
+  requires bf.mode != SafeRaw
+  ensures BK(bf)
+
+func (bf *buffer) writeByte(c byte)
+  requires [C02] S1(bf, $class(c))
+  requires [C06] S2(bf)
+  requires [C05,C06] S3(bf)
+  requires [C05] S4(bf, $class(c))
+  requires [C09] c < 128
+  requires bf.mode != SafeRaw
+  ensures BK(bf)
+
+func (bf *buffer) writeRune(r rune)
+  requires [C02] S1(bf, $class(r))
+  requires [C06] S2(bf)
+  requires [C05,C06] S3(bf)
+  requires [C05] S4(bf, $class(r))
+  requires bf.mode != SafeRaw
+  ensures BK(bf)
+
+-- ---------------------------------------------------------------- format.go
+-- Payload-carrying formatters take the class of their payload; the numeric ones always format operand data.
+
+func (f *fmt) clearflags()
+  ensures !f.widPresent && !f.precPresent && !f.minus && !f.plus && !f.sharp && !f.space && !f.zero && !f.plusV && !f.sharpV
+  ensures f.wid == old(f.wid) && f.prec == old(f.prec)
+
+func (f *fmt) init(buf *buffer)
+  modifies f, f.buf
+  ensures f.buf == buf
+  ensures !f.widPresent && !f.precPresent && !f.minus && !f.plus && !f.sharp && !f.space && !f.zero && !f.plusV && !f.sharpV
+
+func (f *fmt) writePadding(n int)
+  requires f.buf != nil && inv(f.buf) && f.buf.mode != SafeRaw
+  requires n <= 1099511627776
+  requires [C06] S2(f.buf)
+  requires [C05,C06] S3(f.buf)
+  class 3 before "f.buf.writeByte(padByte)"
+  modifies f, f.buf
+  loop 1 invariant inv(f.buf) && BK(f.buf) && FK(f)
+  ensures inv(f.buf) && BK(f.buf) && FK(f)
+
+func (f *fmt) pad(q []byte)
+  requires f.buf != nil && inv(f.buf) && f.buf.mode != SafeRaw && WP(f)
+  requires [C02] S1(f.buf, $class(q))
+  requires [C06] S2(f.buf)
+  requires [C05,C06] S3(f.buf)
+  requires [C05] S4(f.buf, $class(q))
+  modifies f, f.buf
+  ensures inv(f.buf) && BK(f.buf) && FK(f)
+
+func (f *fmt) padString(s string)
+  requires f.buf != nil && inv(f.buf) && f.buf.mode != SafeRaw && WP(f)
+  requires [C02] S1(f.buf, $class(s))
+  requires [C06] S2(f.buf)
+  requires [C05,C06] S3(f.buf)
+  requires [C05] S4(f.buf, $class(s))
+  modifies f, f.buf
+  ensures inv(f.buf) && BK(f.buf) && FK(f)
+
+func (f *fmt) fmtBoolean(v bool)
+  requires f.buf != nil && inv(f.buf) && f.buf.mode != SafeRaw && WP(f)
+  requires [C02] S1(f.buf, 2)
+  requires [C06] S2(f.buf)
+  requires [C05,C06] S3(f.buf)
+  class 2 before "f.padString(\"true\")"
+  class 2 before "f.padString(\"false\")"
+  modifies f, f.buf
+  ensures inv(f.buf) && BK(f.buf) && FK(f)
+
+func (f *fmt) truncateString(s string) (r string)
+  modifies nothing
+  ensures len(r) <= len(s)
+
+assume pure func strconv.IsPrint(r rune) (ok bool)
+  ensures ok ==> utf8.RuneLen(r) >= 1
+
+assume pure func utf8.RuneCount(q []byte) (n int)
+  ensures 0 <= n && n <= len(q)
+
+assume pure func utf8.RuneCountInString(s string) (n int)
+  ensures 0 <= n && n <= len(s)
+
+assume func utf8.DecodeRune(q []byte) (r rune, size int)
+  ensures 0 <= size && size <= 4 && size <= len(q) && (len(q) > 0 ==> size >= 1)
+
+func (f *fmt) truncate(q []byte) (r []byte)
+  modifies nothing
+  loop 1 invariant 0 <= i && i <= len(b)
+  ensures len(r) <= len(q)
+
+func (f *fmt) fmtS(s string)
+  requires f.buf != nil && inv(f.buf) && f.buf.mode != SafeRaw && WP(f)
+  requires [C02] S1(f.buf, $class(s))
+  requires [C06] S2(f.buf)
+  requires [C05,C06] S3(f.buf)
+  requires [C05] S4(f.buf, $class(s))
+  modifies f, f.buf
+  ensures inv(f.buf) && BK(f.buf) && FK(f)
+
+func (f *fmt) fmtBs(q []byte)
+  requires f.buf != nil && inv(f.buf) && f.buf.mode != SafeRaw && WP(f)
+  requires [C02] S1(f.buf, $class(q))
+  requires [C06] S2(f.buf)
+  requires [C05,C06] S3(f.buf)
+  requires [C05] S4(f.buf, $class(q))
+  modifies f, f.buf
+  ensures inv(f.buf) && BK(f.buf) && FK(f)
+
+func (f *fmt) fmtSbx(s string, q []byte, digits string)
+  requires f.buf != nil && inv(f.buf) && f.buf.mode != SafeRaw && WP(f)
+  requires len(digits) == 17
+  requires [C02] S1(f.buf, 2)
+  requires [C06] S2(f.buf)
+  requires [C05,C06] S3(f.buf)
+  modifies f, f.buf
+  loop 1 invariant 0 <= i && i <= length && (q != nil ==> length <= len(q)) && (q == nil ==> length <= len(s))
+  loop 1 invariant inv(f.buf) && BK(f.buf) && FK(f)
+  ensures inv(f.buf) && BK(f.buf) && FK(f)
+
+func (f *fmt) fmtSx(s, digits string)
+  requires f.buf != nil && inv(f.buf) && f.buf.mode != SafeRaw && WP(f)
+  requires len(digits) == 17
+  requires [C02] S1(f.buf, 2)
+  requires [C06] S2(f.buf)
+  requires [C05,C06] S3(f.buf)
+  modifies f, f.buf
+  ensures inv(f.buf) && BK(f.buf) && FK(f)
+
+func (f *fmt) fmtBx(q []byte, digits string)
+  requires f.buf != nil && inv(f.buf) && f.buf.mode != SafeRaw && WP(f)
+  requires len(digits) == 17
+  requires [C02] S1(f.buf, 2)
+  requires [C06] S2(f.buf)
+  requires [C05,C06] S3(f.buf)
+  modifies f, f.buf
+  ensures inv(f.buf) && BK(f.buf) && FK(f)
+
+func (f *fmt) fmtQ(s string)
+  requires f.buf != nil && inv(f.buf) && f.buf.mode != SafeRaw && WP(f)
+  requires [C02] S1(f.buf, 2)
+  requires [C06] S2(f.buf)
+  requires [C05,C06] S3(f.buf)
+  class 2 before "f.padString(\"`\" + s + \"`\")"
+  class 2 before "f.pad(strconv.AppendQuoteToASCII(buf, s))"
+  class 2 before "f.pad(strconv.AppendQuote(buf, s))"
+  modifies f, f.buf
+  ensures inv(f.buf) && BK(f.buf) && FK(f)
+
+
+-- numeric formatters: always operand data. Their digit loops and scratch-buffer arithmetic are not
+-- part of the panic sweep yet (nosweep): only mode/flag preservation and the site obligations are proved.
+
+func (f *fmt) fmtUnicode(u uint64)
+  nosweep
+  requires f.buf != nil && inv(f.buf) && f.buf.mode != SafeRaw && WP(f)
+  requires [C02] S1(f.buf, 2)
+  requires [C06] S2(f.buf)
+  requires [C05,C06] S3(f.buf)
+  loop 1 invariant memKeptExcept(f.intbuf)
+  loop 2 invariant memKeptExcept(f.intbuf)
+  modifies f, f.buf
+  ensures inv(f.buf) && BK(f.buf) && FK(f)
+
+func (f *fmt) fmtInteger(u uint64, base int, isSigned bool, verb rune, digits string)
+  nosweep
+  requires f.buf != nil && inv(f.buf) && f.buf.mode != SafeRaw && WP(f)
+  requires [C02] S1(f.buf, 2)
+  requires [C06] S2(f.buf)
+  requires [C05,C06] S3(f.buf)
+  loop 1 invariant memKeptExcept(f.intbuf)
+  loop 2 invariant memKeptExcept(f.intbuf)
+  loop 3 invariant memKeptExcept(f.intbuf)
+  loop 4 invariant memKeptExcept(f.intbuf)
+  loop 5 invariant memKeptExcept(f.intbuf)
+  modifies f, f.buf
+  ensures inv(f.buf) && BK(f.buf) && FK(f)
+
+func (f *fmt) fmtC(c uint64)
+  nosweep
+  requires f.buf != nil && inv(f.buf) && f.buf.mode != SafeRaw && WP(f)
+  requires [C02] S1(f.buf, 2)
+  requires [C06] S2(f.buf)
+  requires [C05,C06] S3(f.buf)
+  modifies f, f.buf
+  ensures inv(f.buf) && BK(f.buf) && FK(f)
+
+func (f *fmt) fmtQc(c uint64)
+  nosweep
+  requires f.buf != nil && inv(f.buf) && f.buf.mode != SafeRaw && WP(f)
+  requires [C02] S1(f.buf, 2)
+  requires [C06] S2(f.buf)
+  requires [C05,C06] S3(f.buf)
+  modifies f, f.buf
+  ensures inv(f.buf) && BK(f.buf) && FK(f)
+
+assume func (f *fmt) fmtFloat(v float64, size int, verb rune, prec int)
+  nosweep
+  requires f.buf != nil && inv(f.buf) && f.buf.mode != SafeRaw && WP(f)
+  requires [C02] S1(f.buf, 2)
+  requires [C06] S2(f.buf)
+  requires [C05,C06] S3(f.buf)
+  modifies f, f.buf
+  ensures inv(f.buf) && BK(f.buf) && FK(f)
+
+-- ---------------------------------------------------------------- helpers.go
+
+func (p *pp) startUnsafe() (r restorer)
+  requires PI(p)
+  ensures PI(p) && p.override == old(p.override) && p.buf.gctx == old(p.buf.gctx) && Kept(p)
+  ensures fresh(r) && r.p == p && r.prevMode == old(p.buf.mode) && r.prevOverride == old(p.override)
+  ensures [C02,C06] p.buf.gctx != 1 ==> p.buf.mode == UnsafeEscaped
+  ensures [C05,C06] p.buf.gctx == 1 ==> p.buf.mode == old(p.buf.mode)
+
+func (p *pp) startPreRedactable() (r restorer)
+  requires PI(p)
+  ensures p.fmt.buf == p.buf && p.override == old(p.override) && p.buf.gctx == old(p.buf.gctx) && Kept(p)
+  ensures fresh(r) && r.p == p && r.prevMode == old(p.buf.mode) && r.prevOverride == old(p.override)
+  ensures [C08] p.buf.gctx != 2 ==> p.buf.mode == SafeRaw && clean(p.buf.buf, len(p.buf.buf))
+  ensures [C06] p.buf.gctx == 2 ==> p.buf.mode == UnsafeEscaped
+
+func (p *pp) startSafeOverride() (r restorer)
+  requires PI(p)
+  ghost p.buf.gctx = p.override after "p.override = overrideSafe"
+  ensures PI(p) && Kept(p)
+  ensures fresh(r) && r.p == p && r.prevMode == old(p.buf.mode) && r.prevOverride == old(p.override)
+  ensures [C05,C06] old(p.buf.gctx) == 0 ==> p.buf.gctx == 1 && p.buf.mode == SafeEscaped
+  ensures [C06] old(p.buf.gctx) != 0 ==> p.buf.gctx == old(p.buf.gctx) && p.buf.mode == old(p.buf.mode)
+
+func (p *pp) startUnsafeOverride() (r restorer)
+  requires PI(p)
+  ghost p.buf.gctx = p.override after "p.override = overrideUnsafe"
+  ensures PI(p) && Kept(p)
+  ensures fresh(r) && r.p == p && r.prevMode == old(p.buf.mode) && r.prevOverride == old(p.override)
+  ensures [C06] old(p.buf.gctx) == 0 ==> p.buf.gctx == 2 && p.buf.mode == UnsafeEscaped
+  ensures [C06] old(p.buf.gctx) != 0 ==> p.buf.gctx == old(p.buf.gctx) && p.buf.mode == old(p.buf.mode)
+
+func (r restorer) restore()
+  requires r.p != nil && inv(r.p.buf) && 0 <= r.prevMode && r.prevMode <= 2
+  modifies r.p
+  ghost r.p.buf.gctx = r.prevOverride after "r.p.override = r.prevOverride"
+  ensures inv(r.p.buf)
+  ensures [C05] r.p.buf.mode == r.prevMode && r.p.override == r.prevOverride && r.p.buf.gctx == r.prevOverride
+  ensures r.p.panicking == old(r.p.panicking) && r.p.erroring == old(r.p.erroring) && r.p.wrapErrs == old(r.p.wrapErrs) && r.p.wrappedErr == old(r.p.wrappedErr) && r.p.arg == old(r.p.arg) && r.p.value == old(r.p.value)
+  ensures r.p.fmt.wid == old(r.p.fmt.wid) && r.p.fmt.prec == old(r.p.fmt.prec) && r.p.fmt.widPresent == old(r.p.fmt.widPresent) && r.p.fmt.precPresent == old(r.p.fmt.precPresent) && r.p.fmt.minus == old(r.p.fmt.minus) && r.p.fmt.plus == old(r.p.fmt.plus) && r.p.fmt.sharp == old(r.p.fmt.sharp) && r.p.fmt.space == old(r.p.fmt.space) && r.p.fmt.zero == old(r.p.fmt.zero) && r.p.fmt.plusV == old(r.p.fmt.plusV) && r.p.fmt.sharpV == old(r.p.fmt.sharpV) && r.p.reordered == old(r.p.reordered) && r.p.goodArgNum == old(r.p.goodArgNum)
+@*/
